@@ -1,6 +1,8 @@
 """C03 -- the garbage collector never frees a reachable object.
-Proof (mark = closure, fuel bound, sweep, collect_safe, refutation) + heap-graph contract tie
-+ GC-schedule differential (hx_gc)."""
+Proof (mark = closure, fuel bound, sweep, unconditional collect_safe; historical refutation of the
+pre-ad6fcd1 edge function) + heap-graph contract tie + GC-schedule differential (hx_gc).
+There is no known-finding class any more: every audit problem and every schedule difference is a
+VIOLATION."""
 import glob, json, os, re
 import vlib
 
@@ -11,7 +13,8 @@ TRUSTED = [
     "free list, and Coq `mark` over edges_spec must give the harness's own reachability",
     "hooks (cfg vbxq_aelys_lang_verif, /repo commits c69505e, 4bc6789): VM::verif_heap_audit (independent traversal incl. "
     "nested function constants), verif_roots (a transcription of the root loop of VM::collect -- if collect drops a root the "
-    "tie and the oracle see it, if both gain one nothing notices), verif_free_list, gc_audit callback, pending_fn",
+    "tie and the oracle see it, if both gain one nothing notices), verif_free_list, gc_audit callback, pending_fn (moot since "
+    "9ba6d0e removed the safepoint it guarded; still read so that a reintroduced safepoint is reported with its cause)",
     "root-set COMPLETENESS (interpreter locals, native argument vectors, raw-pointer caches) is not proved: it is explored "
     "by the schedule differential only (generated programs x 6 forced schedules vs. never collecting)",
     "edges_spec = every GcRef/pointer Value stored in an object as found by the audit traversal (Function: constants of the "
@@ -20,6 +23,7 @@ TRUSTED = [
 
 IMPORTS = "From Aelys Require Import Model.Gc.\nLocal Open Scope N_scope."
 
+# signatures of the two repaired defects (KF-C03-1 fixed by ad6fcd1, KF-C03-2 fixed by 9ba6d0e): plain violations now
 KF1 = "reachable-freed:only-via-nested-function-constant"
 KF2 = "unrooted-local-freed:makeclosure-function"
 
@@ -48,10 +52,10 @@ def parse(out):
         t = line.split("\t")
         if t[0] == "P" and len(t) == 4:
             progs[int(t[1])] = {"class": t[2], "source": unesc(t[3])}
-        elif t[0] == "R" and len(t) == 12:
+        elif t[0] == "R" and len(t) == 11:
             runs.setdefault(int(t[1]), {})[t[2]] = {
                 "class": t[3], "output": t[4], "value": t[5], "detail": t[6], "collections": int(t[7]),
-                "kf1": int(t[8]), "kf2": int(t[9]), "explained": int(t[10]), "exposure": int(t[11])}
+                "nested_losses": int(t[8]), "pending_seen": int(t[9]), "exposure": int(t[10])}
         elif t[0] == "X" and len(t) == 6:
             probs.append({"prog": int(t[1]), "sched": t[2], "collection": int(t[3]), "sig": t[4], "detail": t[5]})
         elif t[0] == "D" and len(t) == 7:
@@ -93,8 +97,9 @@ def run(ctx):
         "roots = what VM::collect enumerates (verif_roots); completeness of that list is explored, not proved",
     ]
     proved = ctx.prove("C03")
-    ctx.cov["refuted_lemmas"] = ["C03_nested_constants_refuted (the premise of C03_collect_safe is false of the code: "
-                                 "Heap::mark does not follow nested function constants)"]
+    ctx.cov["refuted_lemmas"] = []
+    ctx.cov["historical"] = ["C03_old_mark_nested_constants_refuted: Heap::mark before /repo ad6fcd1 (edges_old) freed a reachable "
+                             "object on the heap dumped from the pre-repair VM; the current collector keeps it (C03_witness_now_survives)"]
     if ctx.tier == "thorough" and proved:
         ctx.coqchk("C03")
     ok, out = vlib.coq_make(["Base/CaseCheck.vo", "Model/Gc.vo"])
@@ -109,9 +114,9 @@ def run(ctx):
     cfile, cnames = corpus_file(ctx)
     tot_runs = tot_coll = tot_dumps = 0
     distinct_dumps, distinct_progs = set(), set()
-    stats = {"runs": 0, "differing_runs": 0, "differing_runs_known": 0, "runs_with_collections": 0,
-             "runs_untainted_with_collections": 0, "collections_audited": 0, "collections_exposed_to_nested_constants": 0,
-             "programs_by_class": {}, "baseline_classes": {}}
+    stats = {"runs": 0, "differing_runs": 0, "runs_with_collections": 0, "runs_with_collections_by_class": {},
+             "collections_audited": 0, "collections_with_nested_constants_live": 0,
+             "collections_while_makeclosure_fn_unrooted": 0, "programs_by_class": {}, "baseline_classes": {}}
     for prof in profiles:
         ok, paths, log = vlib.harness_build(["hx_gc"], profile=prof)
         if not ok:
@@ -128,21 +133,18 @@ def run(ctx):
             # the process died inside a run (stack overflow / abort in the VM): attribute it to the run
             # announced by the last S line, classify by the loss events printed before the crash, go on
             crashes += 1
-            lastS, evs, src = None, [], None
-            srcs = {}
+            lastS, srcs = None, {}
             for line in o.splitlines():
                 t = line.split("\t")
                 if t[0] == "P" and len(t) == 4:
                     srcs[int(t[1])] = unesc(t[3])
                 elif t[0] == "S" and len(t) == 3:
-                    lastS, evs = (int(t[1]), t[2]), []
-                elif t[0] == "E" and len(t) == 4 and lastS == (int(t[1]), t[2]):
-                    evs.append(t[3])
+                    lastS = (int(t[1]), t[2])
             if lastS is None or crashes > 20:
                 ctx.violation("hx_gc-crash", "GC harness crashed before/after any run", {"profile": prof, "output_tail": o[-2000:]})
                 return
-            sig = "gc-schedule-diff:" + ("after:" + "+".join(sorted(set(evs), reverse=True)) if evs else "no-known-loss-event")
-            ctx.violation(sig, f"the VM aborts the process (stack overflow / abort) under GC schedule {lastS[1]}; tail: {o[-300:]!r}",
+            ctx.violation("gc-schedule-diff:process-abort",
+                          f"the VM aborts the process (stack overflow / abort) under GC schedule {lastS[1]}; tail: {o[-300:]!r}",
                           {"source": srcs.get(lastS[0]), "schedule": lastS[1], "profile": prof, "process_exit": rc})
             ctx.cov["process_aborts"] = ctx.cov.get("process_aborts", 0) + 1
             start = lastS[0] + 1
@@ -177,33 +179,24 @@ def run(ctx):
             for sched, r in rs.items():
                 stats["runs"] += 1
                 stats["collections_audited"] += r["collections"]
-                stats["collections_exposed_to_nested_constants"] += r["exposure"]
+                stats["collections_with_nested_constants_live"] += r["exposure"]
+                stats["collections_while_makeclosure_fn_unrooted"] += r["pending_seen"]
                 if sched == "1:0":
                     if r["collections"]:
                         ctx.broken.append("schedule 1:0 collected: the GC schedule hook no longer works")
                     continue
                 if r["collections"]:
                     stats["runs_with_collections"] += 1
-                    if not (r["kf1"] or r["kf2"]):
-                        stats["runs_untainted_with_collections"] += 1
-                        u = stats.setdefault("untainted_runs_by_class", {})
-                        u[cls] = u.get(cls, 0) + 1
+                    u = stats["runs_with_collections_by_class"]
+                    u[cls] = u.get(cls, 0) + 1
                 same = (r["class"], r["output"], r["value"]) == (base["class"], base["output"], base["value"])
-                if same:
+                if same or r["class"] == "budget":
                     continue
                 stats["differing_runs"] += 1
-                ev = [n for n, c in (("nested-const-loss", r["kf1"]), ("makeclosure-fn-loss", r["kf2"])) if c]
-                if r["class"] == "budget":
-                    ev = ev or ["budget-only"]
-                sig = "gc-schedule-diff:" + ("after:" + "+".join(ev) if ev else "no-known-loss-event")
-                if sig.endswith("budget-only"):
-                    continue
                 what = (f"GC schedule {sched} changes the behaviour of a program: never-collect gives "
                         f"{base['class']} / {base['output'][:80]!r}, schedule gives {r['class']} / {r['output'][:80]!r} {r['detail'][:100]}")
-                res = ctx.violation(sig, what, {"source": progs[idx]["source"], "schedule": sched, "profile": prof,
-                                               "never": base, "scheduled": r})
-                if res == "known":
-                    stats["differing_runs_known"] += 1
+                ctx.violation("gc-schedule-diff:" + r["class"], what,
+                              {"source": progs[idx]["source"], "schedule": sched, "profile": prof, "never": base, "scheduled": r})
         # ---- heap-graph contract tie: the model's collect on the dumped heap = what the VM did
         cases, meta = [], []
         for d in dumps:
@@ -238,13 +231,13 @@ def run(ctx):
             ctx.add_samples([{"program": progs[idx]["source"][:300], "runs": {s: (r["class"], r["output"][:60]) for s, r in runs[idx].items()}}])
         tot_runs += sum(len(r) for r in runs.values())
         tot_coll += sum(r["collections"] for rs in runs.values() for r in rs.values())
-        # the corpus must still reproduce the known findings (otherwise they are stale)
+        # the corpus programs are regression inputs for the two repaired defects: they run first and must be clean
         if not replay:
             for k, name in enumerate(cnames):
                 rs = runs.get(k, {})
-                hit1 = any(r["kf1"] for r in rs.values())
-                hit2 = any(r["kf2"] for r in rs.values())
-                ctx.cov.setdefault("corpus", {})[name] = {"nested-const-loss": hit1, "makeclosure-fn-loss": hit2}
+                ctx.cov.setdefault("corpus", {})[name] = {
+                    "schedules": len(rs), "collections": sum(r["collections"] for r in rs.values()),
+                    "identical_under_all_schedules": len({(r["class"], r["output"], r["value"]) for r in rs.values()}) == 1}
     try:
         os.remove(cfile)
     except OSError:
